@@ -10,7 +10,7 @@ namespace ErdosVerif.Model.Sim
 /-- `dt` does not overshoot any RUNNING task (the simulator steps by at most the smallest
 remaining time of the placed tasks). -/
 def DtOK (s : SimS) (dt : Int) : Prop :=
-  0 ≤ dt ∧ ∀ t x, taskAt s.graphs t = some x → x.state = .running → ∀ r, x.remaining = some r → dt ≤ r
+  ∀ t x, taskAt s.graphs t = some x → x.state = .running → ∀ r, x.remaining = some r → dt ≤ r
 
 /-- Task `t`, if RUNNING, has been stepped to `now + dt`. -/
 def SteppedAt (s : SimS) (m : Int) (t : TaskId) : Prop :=
@@ -66,7 +66,7 @@ theorem AP.enterStep {ex : List SEvent} {s : SimS} {dt : Int} (h : AP RunOK ex s
     AP (RunMid dt) ex s := by
   refine { h with core := h.core.mono_P ?_ }
   intro t x ht hs ⟨r, hr, hr0, hls, hst, r0, pid, hlog, hsum⟩
-  exact ⟨r, hr, hr0, hst, ⟨r0, pid, hlog, by omega⟩, Or.inl ⟨hls, hd.2 t x ht hs r hr⟩⟩
+  exact ⟨r, hr, hr0, hst, ⟨r0, pid, hlog, by omega⟩, Or.inl ⟨hls, hd t x ht hs r hr⟩⟩
 
 /-- **One RUNNING task is stepped** (written back through `taskCall`). -/
 theorem AP.stepTask {ex : List SEvent} {dt : Int} (s s' : SimS) (t : TaskId) (g : GraphS) (x : TaskS)
